@@ -28,6 +28,7 @@ class Mpsc:
         self.sent, self.recvd = [], []
         self.spurious_polls = 0
         self.cancelled = 0
+        self.closed_senders = 0
 
     @staticmethod
     def advance(t):
@@ -58,6 +59,9 @@ class Mpsc:
         if k == "d":
             t = self.tasks[l[1]]
             return t["alive"] and (self.finished(t) or self.cancel)
+        if k == "k":
+            t = self.tasks[l[1]]
+            return t["alive"] and self.finished(t)
         if k == "c":
             return self.rx == "open" and (self.rx_woken or self.spurious)
         if k == "x":
@@ -66,7 +70,8 @@ class Mpsc:
 
     def labels(self):
         ls = [["p", i] for i in range(len(self.tasks))] + [["r"]]
-        ls += [["d", i] for i in range(len(self.tasks))] + [["c"], ["x"]]
+        ls += [["d", i] for i in range(len(self.tasks))] + [["k", i] for i in range(len(self.tasks))]
+        ls += [["c"], ["x"]]
         return [l for l in ls if self.enabled(l)]
 
     def step(self, l):
@@ -127,6 +132,11 @@ class Mpsc:
                 self.rw = False
             self.wake(ws)
             return {"w": ws}
+        if k == "k":
+            t = self.tasks[l[1]]
+            t["cur"], t["rest"], t["alive"] = [], [], False
+            self.closed_senders += 1
+            return {"w": []}
         # close / drop of the receiver
         ws = list(reversed(self.sw))
         self.sw, self.rw = [], False
@@ -144,13 +154,26 @@ class Mpsc:
         return not self.full()
 
 
+def _rx_stranded(self):
+    if any(t["alive"] and t["woken"] and not self.finished(t) for t in self.tasks):
+        return False
+    if self.rx != "open" or self.rx_woken or self.rx_done:
+        return False
+    return bool(self.buf) or not any(t["alive"] for t in self.tasks)
+
+
+Mpsc.rx_stranded = _rx_stranded
+
+
 def mpsc_run(case):
     """(obs list, ever stranded, mirror) of the Python mirror on a case"""
     m = Mpsc(case["cap"], case["progs"], case.get("spurious", False), case.get("cancel", False))
     obs, stranded = [], False
+    m.ever_rx_stranded = False
     for l in case["labels"]:
         obs.append(m.step(l))
         stranded = stranded or m.stranded()
+        m.ever_rx_stranded = m.ever_rx_stranded or m.rx_stranded()
     return obs, stranded, m
 
 
@@ -190,7 +213,7 @@ def random_walk(rng, cap, progs, spurious, cancel, maxlen):
         # weights: polls dominate; close/drop of the receiver are rare
         pool = []
         for l in en:
-            w = {"p": 16, "r": 20, "d": 4, "c": 2, "x": 1}[l[0]]
+            w = {"p": 16, "r": 20, "d": 4, "k": 2, "c": 2, "x": 1}[l[0]]
             if l[0] == "p" and not m.tasks[l[1]]["woken"]:
                 w = 3
             if l[0] == "d" and not m.finished(m.tasks[l[1]]):
@@ -202,7 +225,7 @@ def random_walk(rng, cap, progs, spurious, cancel, maxlen):
     return labels
 
 
-def enum_walks(cap, progs, spurious, cancel, maxlen, limit, kinds="prdcx"):
+def enum_walks(cap, progs, spurious, cancel, maxlen, limit, kinds="prdkcx"):
     """all maximal enabled label sequences of length <= maxlen (DFS), at most `limit`"""
     out = []
 
@@ -240,6 +263,7 @@ def gen_mpsc(rng, tier, n):
         # bounded-exhaustive: every enabled label sequence up to the stated length
         fams = [
             (1, [[[1]], [[2]]], False, False, 10, "prdcx"),
+            (1, [[[1]], [[2]]], False, False, 9, "prdk"),
             (1, [[[1, 2]], [[3]]], False, False, 10, "prd"),
             (1, [[[9]], [[3]], [[1, 2]]], False, False, 10, "pr"),
             (2, [[[1, 2]], [[3], [4]]], False, False, 10, "pr"),
@@ -277,6 +301,8 @@ def g_label(l):
         return "Poll %s" % g_nat(l[1])
     if k == "d":
         return "DropSender %s" % g_nat(l[1])
+    if k == "k":
+        return "CloseSender %s" % g_nat(l[1])
     return {"r": "PollRx", "c": "CloseRx", "x": "DropRx"}[k]
 
 
@@ -351,7 +377,8 @@ def mpsc_class(case):
     obs, stranded, m = mpsc_run(case)
     two = any(len(st) >= 2 for p in case["progs"] for st in p)
     return {"stranded": stranded, "two": two, "spurious_polls": m.spurious_polls,
-            "cancelled": m.cancelled, "obs": obs}
+            "cancelled": m.cancelled, "obs": obs, "rx_stranded": m.ever_rx_stranded,
+            "closed_senders": m.closed_senders}
 
 
 def mpsc_distribution(cases, results):
@@ -373,8 +400,11 @@ def mpsc_distribution(cases, results):
             d["full_results"] += sum(1 for x in o.get("s", []) if x == "F")
             d["closed_results"] += sum(1 for x in o.get("s", []) if x == "C")
             d["wakes"] += len(o.get("w", []))
-        if mpsc_run(c)[1]:
+        _, st, mm = mpsc_run(c)
+        if st:
             d["stranded_in_model"] += 1
+        if mm.ever_rx_stranded:
+            d["rx_stranded_in_model"] = d.get("rx_stranded_in_model", 0) + 1
     return d
 
 
